@@ -199,6 +199,15 @@ func w4Run(t *testing.T, r *verifsim.Run) {
 		GlobalBudget: int64([]int{0, 4, 1000000}[c.Intn(3, "globalbudget")]),
 		Now:          func() time.Time { return w.now },
 	}
+	// a quarter of the runs concentrate on the token bucket: one metric, tiny budgets, global budget
+	// exhausted from the start, clock moving by whole budget steps
+	floodFocus := c.Intn(4, "flood_focus") == 1
+	if floodFocus {
+		w.opt.MaxBudget = int64(1 + c.Intn(3, "ff_max"))
+		w.opt.BudgetBonus = int64(1 + c.Intn(2, "ff_bonus"))
+		w.opt.GlobalBudget = 0
+	}
+	r.Config["flood_focus"] = floodFocus
 	clockMode := c.Intn(4, "clockmode") // 0 steady 1 long idle periods 2 jumps forward 3 jumps backward too
 	mapShare := c.Intn(3, "mapshare")    // 0: mostly entities, 1: mixed, 2: mostly mappings
 	restarts := c.Intn(3, "restarts")
@@ -215,6 +224,10 @@ func w4Run(t *testing.T, r *verifsim.Run) {
 	}
 	w.maps = newW4MapModel(w.opt)
 	w.maps.allowResets = c.Intn(3, "with_flood_resets") == 1
+	w.maps.focus = floodFocus
+	if floodFocus {
+		mapShare = 2
+	}
 	r.Config["flood_resets"] = w.maps.allowResets
 
 	w.memfs = gofs.NewThreadSafeMemoryFs()
@@ -303,6 +316,14 @@ func w4Run(t *testing.T, r *verifsim.Run) {
 			// periodic commit waits for them holding its connection lock (see DESIGN.md section 7)
 			w.releaseAll()
 			var d time.Duration
+			switch {
+			case floodFocus:
+				d = time.Duration(c.Intn(5, "ff_steps")) * time.Duration(w.opt.StepSec) * time.Second
+				if d == 0 {
+					d = time.Second
+				}
+			default:
+			}
 			switch clockMode {
 			case 0:
 				d = time.Duration(1+c.Intn(3, "dt")) * time.Second
@@ -310,6 +331,12 @@ func w4Run(t *testing.T, r *verifsim.Run) {
 				d = []time.Duration{time.Second, time.Duration(w.opt.StepSec) * time.Second, 5 * time.Duration(w.opt.StepSec) * time.Second}[c.Intn(3, "dt")]
 			default:
 				d = []time.Duration{time.Second, 30 * time.Second, time.Duration(w.opt.StepSec) * time.Second, 1000 * time.Second}[c.Intn(4, "dt")]
+			}
+			if floodFocus {
+				d = time.Duration(c.Intn(5, "ff_steps2")) * time.Duration(w.opt.StepSec) * time.Second
+				if d == 0 {
+					d = time.Second
+				}
 			}
 			back := clockMode == 3 && c.Intn(4, "back") == 1
 			r.Sched("clock", "clock")
@@ -468,6 +495,9 @@ func (w *w4World) genOp(mapShare int) *w4Op {
 		names := w.names[typ]
 		in.Kind, in.Typ, in.Create = "save", typ, true
 		in.Name = names[c.Intn(len(names), "name")]
+		if c.Intn(6, "create_deleted") == 1 {
+			in.DelAt = uint32(w.now.Unix()) // an entity may be created already carrying a deletion time
+		}
 		if c.Intn(8, "predefined") == 1 {
 			in.ID = -1 - int64(c.Intn(2, "pre_id"))
 			in.Create = c.Intn(2, "pre_create") == 0
